@@ -349,31 +349,46 @@ func (w *c14World) exec(tr *c14Track, op c14Op, hist []c14Op, emit bool) {
 		w.c14GovSet(op.FS, op.Min)
 		r.Hist("ops", "params")
 		return
-	case "delfile":
-		// raw store writes (not RemoveFile: its plan bookkeeping is not this property's subject)
-		f, found := k.GetFile(e.Ctx, mb, op.Owner, op.Start)
-		if found {
-			f.Proofs = []string{}
-			k.SetFile(e.Ctx, f)
-			k.RemoveFile(e.Ctx, mb, op.Owner, op.Start)
-		}
+	// environment moves: what other messages do to the file and its provers while a form collects signatures.  They
+	// keep the stores consistent the way the real handlers do (a listed prover has a proof record and vice versa):
+	// states with orphaned proof records are not reachable and say nothing about the property.
+	case "delfile": // MsgDeleteFile / the reward block dropping the file: the keeper's own RemoveFile
+		k.RemoveFile(e.Ctx, mb, op.Owner, op.Start)
 		r.Hist("ops", "env-delfile")
 		return
-	case "setfile":
+	case "setfile": // the file (re-)appears with the given provers: records are created / dropped with the listing
 		cf := c14File{Merkle: op.Merkle, Owner: op.Owner, Start: op.Start}
+		if old, found := k.GetFile(e.Ctx, mb, op.Owner, op.Start); found {
+			for _, key := range old.Proofs {
+				k.RemoveProofWithBuiltKey(e.Ctx, []byte(key))
+			}
+		}
 		keys := []string{}
 		for _, p := range op.Proofs {
 			keys = append(keys, c14ProofKey(p, cf))
+			if _, has := k.GetProof(e.Ctx, p, mb, op.Owner, op.Start); !has {
+				k.SetProof(e.Ctx, storagetypes.FileProof{Prover: p, Merkle: mb, Owner: op.Owner, Start: op.Start, LastProven: e.Ctx.BlockHeight()})
+			}
 		}
 		k.SetFile(e.Ctx, storagetypes.UnifiedFile{Merkle: mb, Owner: op.Owner, Start: op.Start, Expires: 1 << 40, FileSize: 1024, ProofInterval: 50, ProofType: 0, Proofs: keys, MaxProofs: 3, Note: "{}"})
 		r.Hist("ops", "env-setfile")
 		return
-	case "delproof":
-		k.RemoveProof(e.Ctx, op.Prover, mb, op.Owner, op.Start)
+	case "delproof": // the reward block dropping the prover: listing and record go together
+		if f, found := k.GetFile(e.Ctx, mb, op.Owner, op.Start); found {
+			f.RemoveProver(e.Ctx, k, op.Prover)
+		}
 		r.Hist("ops", "env-delproof")
 		return
-	case "setproof":
-		k.SetProof(e.Ctx, storagetypes.FileProof{Prover: op.Prover, Merkle: mb, Owner: op.Owner, Start: op.Start, LastProven: op.LP})
+	case "setproof": // an accepted proof: the record of a listed prover is refreshed, a new prover joins if there is room
+		if f, found := k.GetFile(e.Ctx, mb, op.Owner, op.Start); found {
+			if f.ContainsProver(op.Prover) {
+				k.SetProof(e.Ctx, storagetypes.FileProof{Prover: op.Prover, Merkle: mb, Owner: op.Owner, Start: op.Start, LastProven: op.LP})
+			} else if int64(len(f.Proofs)) < f.MaxProofs {
+				f.Proofs = append(f.Proofs, f.MakeProofKey(op.Prover))
+				k.SetFile(e.Ctx, f)
+				k.SetProof(e.Ctx, storagetypes.FileProof{Prover: op.Prover, Merkle: mb, Owner: op.Owner, Start: op.Start, LastProven: op.LP})
+			}
+		}
 		r.Hist("ops", "env-setproof")
 		return
 	case "delprov": // what MsgShutdownProvider does to the stores this property reads: the provider record goes, its proofs stay
@@ -515,14 +530,20 @@ func (w *c14World) exec(tr *c14Track, op c14Op, hist []c14Op, emit bool) {
 				if !reg {
 					bad("C14/request/"+kindName+"/names-unregistered", "the form names an account that is not a registered provider")
 				}
+				// holds a proof: it is a listed prover of a stored file and its proof record exists
 				holds := false
 				for _, pf := range pre.Proofs {
-					if pf.Prover == n {
-						holds = true
+					if pf.Prover != n {
+						continue
+					}
+					for _, f := range pre.Files {
+						if f.Merkle == pf.Merkle && f.Owner == pf.Owner && f.Start == pf.Start && c14Has(f.Proofs, n) {
+							holds = true
+						}
 					}
 				}
 				if !holds {
-					bad("C14/request/"+kindName+"/names-provider-without-proofs", "the form names a provider that holds no proof record")
+					bad("C14/request/"+kindName+"/names-provider-without-proofs", "the form names a provider that is no listed prover (with a proof record) of any stored file")
 				}
 				if n == prover {
 					bad("C14/request/"+kindName+"/names-the-prover", "the form names the prover it concerns")
@@ -844,10 +865,7 @@ func c14RandomHistory(r *RunCtx, p *PRNG, sc int) error {
 		}
 		w.addFile(p.Bytes(32), owner, int64(1+p.Intn(5)), provers, 1)
 	}
-	// a provider that holds a proof record of a file that is gone still counts as active
-	if p.Chance(1, 4) {
-		w.e.App.StorageKeeper.SetProof(w.e.Ctx, storagetypes.FileProof{Prover: w.provs[len(w.provs)-1], Merkle: []byte{1, 2}, Owner: owner, Start: 9, LastProven: 1})
-	}
+	_ = p.Chance(1, 4) // (an orphaned proof record used to be planted here: not a reachable state, see the environment moves)
 	fsmin := func() (int64, int64) {
 		switch p.Intn(10) {
 		case 0:
@@ -929,6 +947,9 @@ func c14RandomHistory(r *RunCtx, p *PRNG, sc int) error {
 			switch p.Intn(7) {
 			case 5:
 				op.Kind, op.Prover = "delprov", lf.Prover
+				if len(lf.Entries) > 0 && p.Chance(2, 3) { // one of the providers named on the form shuts down
+					op.Prover = lf.Entries[p.Intn(len(lf.Entries))].Provider
+				}
 			case 6:
 				op.Kind, op.Prover = "setprov", lf.Prover
 				if len(w.gone) > 0 && p.Bool() {
@@ -1203,5 +1224,66 @@ func runC14(r *RunCtx) error {
 			return err
 		}
 	}
+	if err := c14DirectedRemovedFile(r); err != nil {
+		return err
+	}
 	return c14DirectedDoubleRegistration(r)
+}
+
+// a file with three provers is deleted by its owner; the prover that proved nothing else holds no proof any more and
+// must not be named on the forms the provers of the other file ask for afterwards
+func c14DirectedRemovedFile(r *RunCtx) error {
+	w, err := c14NewWorld(r)
+	if err != nil {
+		return err
+	}
+	defer w.e.Close()
+	for i := 0; i < 7; i++ {
+		if err := w.addProvider(Acct(100+i), Acct(100+i).String(), fmt.Sprintf("https://node%d.%s:%d", i, c14GoodDomains[i%len(c14GoodDomains)], 3000+i), false); err != nil {
+			return err
+		}
+	}
+	owner := Acct(120).String()
+	f := w.addFile([]byte("removed-file-F-merkle-0123456789"), owner, 3, []string{w.provs[0], w.provs[1], w.provs[2]}, 1)
+	g := w.addFile([]byte("kept-file-G-merkle-0123456789abc"), owner, 4, []string{w.provs[3], w.provs[4], w.provs[5]}, 1)
+	h := w.addFile([]byte("kept-file-H-merkle-0123456789abc"), owner, 5, []string{w.provs[6], w.provs[0], w.provs[2]}, 1)
+	w.setParams(3, 2)
+	w.describe()
+	tr := c14NewTrack()
+	hist := []c14Op{}
+	ops := []c14Op{{Kind: "delfile", Merkle: f.Merkle, Owner: f.Owner, Start: f.Start}}
+	for i, pv := range []string{w.provs[3], w.provs[4], w.provs[5]} {
+		ops = append(ops, c14Op{Kind: "reqA", Creator: pv, Merkle: g.Merkle, Owner: g.Owner, Start: g.Start, Height: int64(20 + 3*i)})
+		ops = append(ops, c14Op{Kind: "reqR", Creator: owner, Prover: pv, Merkle: g.Merkle, Owner: g.Owner, Start: g.Start, Height: int64(31 + 2*i)})
+	}
+	for _, op := range ops {
+		w.exec(tr, op, hist, true)
+		hist = append(hist, op)
+	}
+	r.Hist("directed", "removed-file")
+	// a report form keeps the providers it named and their signatures: a named provider that signed and then shut
+	// down, a second request for the same form, the provider's return, another named provider leaving, a third request
+	w.setParams(3, 3)
+	run := func(op c14Op) {
+		w.exec(tr, op, hist, true)
+		hist = append(hist, op)
+	}
+	target := w.provs[6]
+	run(c14Op{Kind: "reqR", Creator: owner, Prover: target, Merkle: h.Merkle, Owner: h.Owner, Start: h.Start, Height: 50})
+	st := w.observe()
+	if fm := st.form("rep", c14Key(target, h.Merkle, h.Owner, h.Start)); fm != nil && len(fm.Entries) >= 3 {
+		j0, j1, j2 := fm.Entries[0].Provider, fm.Entries[1].Provider, fm.Entries[2].Provider
+		rq := c14Op{Kind: "reqR", Creator: owner, Prover: target, Merkle: h.Merkle, Owner: h.Owner, Start: h.Start}
+		sign := func(j string, hh int64) c14Op {
+			return c14Op{Kind: "rep", Creator: j, Prover: target, Merkle: h.Merkle, Owner: h.Owner, Start: h.Start, Height: hh}
+		}
+		for _, op := range []c14Op{sign(j0, 51), {Kind: "delprov", Prover: j0}, rq, {Kind: "setprov", Prover: j0}, {Kind: "delprov", Prover: j2}, rq, sign(j0, 55), sign(j1, 56), {Kind: "setprov", Prover: j2}, sign(j2, 57)} {
+			if op.Kind == "reqR" {
+				op.Height = 52 + int64(len(hist)%3)
+			}
+			run(op)
+		}
+		r.Hist("directed", "named-provider-leaves-and-returns")
+	}
+	return nil
 }
